@@ -88,6 +88,31 @@ def api_init_graph(res, rng, metric, kind, wide=False):
             return
 
 
+def api_good_init(res, rng, metric):
+    """a GOOD supplied graph (exact k-NN) with a few unknown (-1) entries, one of them in row 0, and no refinement: whatever the
+    construction does, no supplied neighbour may be lost (random initialisation cannot rediscover them)"""
+    from scipy.spatial.distance import cdist
+    n, dim, k = 200, 10, 6
+    X = rng.standard_normal((n, dim)).astype(np.float32)
+    D = cdist(X.astype(np.float64), X.astype(np.float64), {"euclidean": "euclidean", "manhattan": "cityblock"}[metric])
+    G = np.argsort(D, axis=1)[:, :k].astype(np.int32)
+    G[0, int(rng.integers(1, k))] = -1
+    for r_ in rng.integers(1, n, 5):
+        G[int(r_), int(rng.integers(1, k))] = -1
+    idx = NNDescent(X, metric=metric, n_neighbors=k, random_state=int(rng.integers(10 ** 6)), init_graph=G, n_iters=0)
+    inds, dists = idx.neighbor_graph
+    case = {"metric": metric, "n": n, "k": k, "init": "exact k-NN with a -1 hole in row 0", "n_iters": 0}
+    res.case(("good-init", metric, X.tobytes()[:64]), True, sample=case); res.count("api_good_init"); res.traces += 1
+    for i in range(n):
+        before = sorted(float(D[i, q]) for q in G[i] if q >= 0)
+        after = sorted(float(d) for d, q in zip(dists[i], inds[i]) if q >= 0)
+        w = rank_worse(before, after, tol=2e-5, metric=metric)
+        if w:
+            res.violation("rank:init_graph:dense32:%s" % metric, "exact initial graph with holes: row %d rank %d: %r supplied, %r in the result"
+                          % (i, w[0], w[1], w[2]), case)
+            return
+
+
 def api_iters_case(res, rng, metric, kind):
     n = int(rng.choice([80, 250])); k = int(rng.choice([4, 10])); dim = 5
     X, L = api.gen_dataset(rng, metric, kind, n, dim)
@@ -122,10 +147,13 @@ def api_update(res, rng, metric):
     idx = NNDescent(X, metric=metric, metric_kwds=kw, n_neighbors=k, random_state=int(rng.integers(10 ** 6)))
     rows = n
     for step in range(int(rng.choice([1, 2]))):
-        if prep:
-            idx.prepare()
+        # the lists as they stand BEFORE the search structures are (re)built: prepare / query must not cost the index anything
         i0, d0 = idx.neighbor_graph
         i0, d0 = i0.copy(), d0.copy()
+        if prep:
+            idx.prepare()
+            if step % 2 == 0:
+                idx.query(X[:3], k=3)
         U, _ = api.gen_dataset(rng, metric, "dense32", int(rng.choice([1, 10, 40])), dim)
         idx.update(xs_fresh=U)
         i1, d1 = idx.neighbor_graph
@@ -159,6 +187,9 @@ def run(res, tier, seed, search):
         for r in range(reps):
             api_init_graph(res, rng, metric, kind, wide=(r == 0))
             api_iters_case(res, rng, metric, kind)
+    api_good_init(res, rng, "euclidean")
+    if tier != "quick":
+        api_good_init(res, rng, "manhattan")
     for metric in (["euclidean", "cosine"] if tier == "quick" else ["euclidean", "cosine", "manhattan", "correlation"]):
         for r in range(reps):
             api_update(res, rng, metric)
